@@ -969,27 +969,31 @@ func main() {
 	os.MkdirAll(scratch, 0755)
 
 	n := mon.N(120, 6000)
-	only := -1
+	// replay: the witness of a violation is the complete case; run exactly that
+	var replayC *Case
 	if p := os.Getenv("VERIF_REPLAY"); p != "" {
 		var rp struct {
-			Replay struct {
-				Index int `json:"index"`
-			} `json:"replay"`
+			Replay *Case `json:"replay"`
 		}
-		if b, err := os.ReadFile(p); err == nil && json.Unmarshal(b, &rp) == nil {
-			only = rp.Replay.Index
+		b, err := os.ReadFile(p)
+		if err != nil || json.Unmarshal(b, &rp) != nil || rp.Replay == nil || len(rp.Replay.Aggs) == 0 {
+			panic("C11: cannot read a case from replay file " + p)
 		}
+		replayC = rp.Replay
+		n = 1
 	}
 	var st stats
 	ran := 0
 	for idx := 0; idx < n; idx++ {
-		if only >= 0 && idx != only {
+		if replayC == nil && !mon.Mine(idx) {
 			continue
 		}
-		if only < 0 && !mon.Mine(idx) {
-			continue
+		var c Case
+		if replayC != nil {
+			c = *replayC
+		} else {
+			c = gen(mon.Seed(), idx)
 		}
-		c := gen(mon.Seed(), idx)
 		res.LogCase("table %d: %d aggregators %d blacklist %d rewriters %d routes %d rounds", idx, len(c.Aggs), len(c.Blacklist), len(c.Rewriters), len(c.Routes), len(c.Rounds))
 		done := make(chan struct{})
 		go func() {
@@ -1028,7 +1032,7 @@ func main() {
 	res.Count("aggregates_matching_a_rule_filter", st.loop)
 	res.Count("aggregates_blacklist_or_rewriter_would_hit", st.blOrRw)
 	res.Count("aggregates_invalid_if_validated", st.invalidIfValidated)
-	if only < 0 {
+	if replayC == nil {
 		res.Floor("tables", ran, n)
 		res.Floor("aggregate_lines", st.aggExpected, n*5)
 		res.Floor("aggregates_matching_a_rule_filter", st.loop, n)
